@@ -261,16 +261,26 @@ static void do_parse(char *hex, char **sizes, int nsizes, int nocc, int withline
 	int first = 1;
 	nlinelog = 0; linelog_on = withlines;
 	char *prev = NULL;
-	for (int k = 0; off < len; k++) {
+	/* a trailing `e`: an empty push behind the data, the daemon's way of saying end of input (recv() = 0) */
+	int eofpush = nsizes > 0 && !strcmp(sizes[nsizes - 1], "e");
+	if (eofpush) nsizes--;
+	for (int k = 0; off < len || eofpush; k++) {
 		size_t c = k < nsizes ? strtoul(sizes[k], NULL, 10) : len - off;
-		if (c == 0 || c > len - off) c = len - off;
+		if (off >= len) { c = 0; eofpush = 0; }
+		else if (c == 0 || c > len - off) c = len - off;
 		/* callers hand the parser a buffer of their own that is valid until the next push: copy the chunk so that
 		 * reading past its end is visible to ASan */
-		char *chunk = malloc(c);
-		memcpy(chunk, txt + off, c);
-		off += c;
-		free(prev);          /* a caller's buffer stays valid until it pushes the next one (or finishes) */
-		prev = chunk;
+		char *chunk;
+		if (c == 0 && prev != NULL) {
+			/* the daemon's read buffer is one and the same all along: the empty push hands over the old bytes */
+			chunk = prev;
+		} else {
+			chunk = malloc(c);
+			memcpy(chunk, txt + off, c);
+			off += c;
+			free(prev);          /* a caller's buffer stays valid until it pushes the next one (or finishes) */
+			prev = chunk;
+		}
 		if (echs_evical_push(&pp, chunk, c) >= 0) {
 			for (;;) {
 				echs_instruc_t ins = echs_evical_pull(&pp);
@@ -290,6 +300,8 @@ static void do_parse(char *hex, char **sizes, int nsizes, int nocc, int withline
 	if (pp != NULL) {
 		echs_instruc_t ins = echs_evical_last_pull(&pp);
 		if (ins.v == INSVERB_SCHE && ins.t != NULL) { printf("%sL", first ? "" : " "); first = 0; dump_task(ins.t, nocc); free_echs_task(ins.t); }
+		else if (ins.v == INSVERB_UNSC) { printf("%sLU{%s}", first ? "" : " ", ins.o ? obint_name(ins.o) : "~"); first = 0; }
+		else if (ins.v == INSVERB_RESC) { printf("%sLR{%s}", first ? "" : " ", ins.o ? obint_name(ins.o) : "~"); first = 0; }
 	}
 	free(prev);
 	linelog_on = 0;
